@@ -15,8 +15,12 @@ Space (every member is visited):
   argv         : for every real command c and every parser p: [c, --opt-p, v], [c, --flag-p], [c, -p];
                  for every real c: [c], all options c must accept in one argv, [c, --common, v], [c, -v],
                  [c, --color, never], [c, --no-color]; and without a command name: [], [-v],
-                 [--common, v], [--opt-p, v], [--flag-p] for every parser p
-  seq          : every ordered pair of declarations with <= 3 commands (63 x 63), both built in one freshly
+                 [--common, v], [--opt-p, v], [--flag-p] for every parser p; and argv whose LATER words are
+                 names of commands / internal option sets: [--common, <name>], [--opt-<default>, <name>, -v],
+                 [x, <name>], [-v, x, <name>, --common, <other name>] for every declared name (a positional
+                 "words" argument is added to the ArgParser for this)
+  seq          : every ordered pair of declarations with <= 3 commands (63 x 63; quick: the pairs in which at
+                 least one declaration has <= 2 commands, 833), both built in one freshly
                  reloaded ak.cli_tools module: first probed, second built and probed, first probed again
 Oracle (models/cli_model.py): transitive closure of the declared parents.
 """
@@ -60,7 +64,8 @@ REQUIRED_FEATURES = ["shape:no-edges", "shape:multi-parent", "shape:transitive",
                      "default:implicit", "parents-iterated:declared-order", "parents-iterated:other-order",
                      "probe:own-option", "probe:inherited-direct", "probe:inherited-transitive",
                      "probe:foreign-option", "probe:common-option", "probe:std-option",
-                     "probe:no-command", "probe:all-inherited-at-once", "seq:two-parsers"]
+                     "probe:no-command", "probe:no-command-later-name", "probe:all-inherited-at-once",
+                     "seq:two-parsers"]
 
 NAMES = ["alpha", "bravo", "carol", "delta", "echo"]
 THOROUGH_SEEDS = ["0", "1", "2"]
@@ -204,6 +209,8 @@ def _construct(mod, case, acc, feats, bad):
         if case["order"] == "fwd":
             acc.trans()
             ap.add_argument("--common", help="for every command")
+        acc.trans()
+        ap.add_argument("words", nargs="*", help="positional words, for every command")
     except BaseException as e:  # noqa
         bad("add-option-fails-" + ("shared-ancestor" if shared else "plain"),
             f"adding the options raised {type(e).__name__}",
@@ -305,6 +312,20 @@ def _probe_all(ap, case, acc, feats, bad, tag=""):
                 break                         # an earlier report of this parser already explains it
             probe(argv, dflt, want_attrs, want, "probe:no-command",
                   "default-command-foreign-option-accepted", "default-command-option-rejected")
+    # a LATER word that equals a command name or the name of an internal option set (as the value of an option
+    # or as a positional word) does not make the argv start with a command name
+    for k in range(n):
+        if nbad[0]:
+            break
+        probe(["--common", names[k]], dflt, [("common", names[k])], True, "probe:no-command-later-name", "-",
+              "default-command-later-word-is-a-name")
+        probe(["--opt-" + names[dflt], names[k], "-v"], dflt, [("opt_" + names[dflt], names[k]), ("verbose", 1)],
+              True, "probe:no-command-later-name", "-", "default-command-later-word-is-a-name")
+        probe(["x", names[k]], dflt, [("words", ["x", names[k]])], True, "probe:no-command-later-name", "-",
+              "default-command-later-word-is-a-name")
+        probe(["-v", "x", names[k], "--common", names[(k + 1) % n]], dflt,
+              [("words", ["x", names[k]]), ("common", names[(k + 1) % n])], True, "probe:no-command-later-name",
+              "-", "default-command-later-word-is-a-name")
     # first word names an internal option set: outside the property, counted only
     for i in range(n):
         if internal[i]:
@@ -326,7 +347,7 @@ def _case_features(case):
         if internal[c]:
             continue
         feats |= {"probe:own-option", "probe:common-option", "probe:std-option", "probe:no-command",
-                  "probe:all-inherited-at-once", "probe:bare-command"}
+                  "probe:all-inherited-at-once", "probe:bare-command", "probe:no-command-later-name"}
         for p in range(case["n"]):
             if p == c:
                 continue
@@ -439,12 +460,14 @@ def _seq_configs():
     return out
 
 
-def _explore_seq_block(hs, k, step, acc):
+def _explore_seq_block(hs, k, step, acc, tier="thorough"):
     cfgs = _seq_configs()
     for i in range(k, len(cfgs), step):
         for j in range(len(cfgs)):
             if acc.expired():
                 return
+            if tier == "quick" and cfgs[i][0] > 2 and cfgs[j][0] > 2:
+                continue          # quick: at least one of the two declarations has <= 2 commands
             seq = []
             for (n, parents, internal), naming in ((cfgs[i], 0), (cfgs[j], 0)):
                 seq.append({"n": n, "parents": parents, "internal": internal, "naming": naming, "default": "-",
@@ -485,13 +508,13 @@ def run_shard(shard, tier, seed, acc):
     hs = str(hs)
     if hs == _own_hashseed():
         if n == "seq":
-            _explore_seq_block(hs, lo, hi, acc)
+            _explore_seq_block(hs, lo, hi, acc, tier)
         else:
             _explore_block(hs, n, lo, hi, acc)
         acc.feat("hashseed:" + hs)
         return
     d = _in_subprocess({"mode": "block", "hashseed": hs, "n": n, "lo": lo, "hi": hi, "seed": seed,
-                        "deadline": acc.deadline})
+                        "deadline": acc.deadline, "tier": tier})
     acc.merge(d)
     acc.feat("hashseed:" + hs)
 
@@ -532,7 +555,8 @@ def _child_main():
     assert me._own_hashseed() == str(payload["hashseed"]), (me._own_hashseed(), payload["hashseed"])
     acc = core.Acc(seed=payload.get("seed", 0), deadline=payload.get("deadline"))
     if payload["mode"] == "block" and payload["n"] == "seq":
-        me._explore_seq_block(str(payload["hashseed"]), payload["lo"], payload["hi"], acc)
+        me._explore_seq_block(str(payload["hashseed"]), payload["lo"], payload["hi"], acc,
+                              payload.get("tier", "thorough"))
     elif payload["mode"] == "block":
         me._explore_block(str(payload["hashseed"]), payload["n"], payload["lo"], payload["hi"], acc)
     else:
